@@ -454,8 +454,39 @@ func cmd2(c *Ctx) {
 		})
 		for _, call := range ir.Calls(f) {
 			if cf := ir.Static(call); cf != nil && ir.IsStdFunc(cf, "os", "Exit") {
-				// allowed only in the initialiser closure of the exiter variable
-				if f.Parent() == nil || f.Parent().Name() != "init" {
+				// allowed only in the initialiser closure of the exiter variable, or in a named function whose
+				// only use in the program is to be stored into that variable by the package initialiser
+				okInit := f.Parent() != nil && f.Parent().Name() == "init"
+				if !okInit && f.Parent() == nil && f.Referrers() == nil {
+					// a package-level function has no referrer list: look the uses up
+					uses, storedToExiter := 0, 0
+					for _, f2 := range c.ClosureFuncsDeep() {
+						ir.Instrs(f2, func(in2 ssa.Instruction) {
+							for _, op := range in2.Operands(nil) {
+								if *op == ssa.Value(f) {
+									uses++
+									if st, isSt := in2.(*ssa.Store); isSt && st.Addr == ssa.Value(g) && f2.Name() == "init" {
+										storedToExiter++
+									}
+								}
+							}
+						})
+					}
+					if init, _ := f.Pkg.Members["init"].(*ssa.Function); init != nil {
+						ir.Instrs(init, func(in2 ssa.Instruction) {
+							for _, op := range in2.Operands(nil) {
+								if *op == ssa.Value(f) {
+									uses++
+									if st, isSt := in2.(*ssa.Store); isSt && st.Addr == ssa.Value(g) {
+										storedToExiter++
+									}
+								}
+							}
+						})
+					}
+					okInit = uses > 0 && uses == storedToExiter
+				}
+				if !okInit {
 					misuse = append(misuse, Q(f)+": os.Exit at "+c.P.Pos(call.Pos()))
 				}
 			}
